@@ -142,6 +142,9 @@ pub struct Model {
     pub m: M,
     /// list index into which the last op pushed a fresh victim (ARC ghost leniency)
     pub ghosted: Option<usize>,
+    /// ARC: the two ghost lists of the last put *before* the model trimmed them (the
+    /// statement does not pin the trimming rule, so keeping more ghosts is accepted too)
+    pub ghost_max: Option<(L, L)>,
 }
 
 /// expected result of walking an iterator over `list` (MRU first); applies writes
@@ -279,7 +282,7 @@ impl Model {
             Kind::Arc => M::Arc { size: cfg.a, p: 0, t1: vec![], t2: vec![], b1: vec![], b2: vec![] },
             Kind::Wtl => M::Wtl { wc: cfg.a, tc: cfg.b, pc: cfg.c, win: vec![], prob: vec![], prot: vec![] },
         };
-        Model { kind, m, ghosted: None }
+        Model { kind, m, ghosted: None, ghost_max: None }
     }
 
     pub fn lists(&self) -> Vec<&L> {
@@ -348,6 +351,7 @@ impl Model {
     /// victim `b` right now (W-TinyLFU only). `alt` selects among allowed outcomes.
     pub fn apply(&mut self, op: &Op, i: usize, est: &dyn Fn(u16, u16) -> bool, st: &mut Stats, alt: usize) -> Out {
         self.ghosted = None;
+        self.ghost_max = None;
         let kind = self.kind;
         if !op.supported(kind) {
             return Out::Unsupported;
@@ -669,8 +673,9 @@ impl Model {
                     *p as u64,
                 ]),
                 Op::Put(k) => {
-                    let (pr, g) = arc_put(*size, p, t1, t2, b1, b2, *k, tok, st);
+                    let (pr, g, gm) = arc_put(*size, p, t1, t2, b1, b2, *k, tok, st);
                     self.ghosted = g;
+                    self.ghost_max = gm;
                     Out::Put(pr)
                 }
                 Op::Get(k, _) | Op::GetMut(k, _, _) => {
@@ -790,18 +795,27 @@ impl Model {
     /// a victim must still have it at its most-recent end).
     pub fn reconcile_arc_ghosts(&mut self, real: &[Vec<(u16, u32)>]) -> bool {
         let ghosted = self.ghosted;
+        let gmax = self.ghost_max.take();
         if let M::Arc { b1, b2, .. } = &mut self.m {
             for (li, g) in [(2usize, b1), (3usize, b2)] {
                 let r = &real[li];
                 if r == g {
                     continue;
                 }
-                if !g.starts_with(r) {
+                // fewer discards than the model's trimming rule: fine, as long as it is the
+                // untrimmed list minus a least-recent suffix
+                let max = match (&gmax, li) {
+                    (Some(m), 2) => &m.0,
+                    (Some(m), _) => &m.1,
+                    _ => &*g,
+                };
+                if !max.starts_with(r) {
                     return false;
                 }
-                if ghosted == Some(li) && r.is_empty() {
-                    return false;
-                }
+                // (a ghost list may even lose the victim it just received: the original ARC
+                // trims with the post-eviction lengths and does exactly that when p == 0; the
+                // statement grants "ARC may discard ghost entries silently")
+                let _ = ghosted;
                 *g = r.clone();
             }
             true
@@ -955,19 +969,19 @@ fn arc_replace(size: usize, p: usize, t1: &mut L, t2: &mut L, b1: &mut L, b2: &m
 }
 
 #[allow(clippy::too_many_arguments)]
-fn arc_put(size: usize, p: &mut usize, t1: &mut L, t2: &mut L, b1: &mut L, b2: &mut L, k: u16, v: u32, st: &mut Stats) -> (PR, Option<usize>) {
+fn arc_put(size: usize, p: &mut usize, t1: &mut L, t2: &mut L, b1: &mut L, b2: &mut L, k: u16, v: u32, st: &mut Stats) -> (PR, Option<usize>, Option<(L, L)>) {
     if let Some(i) = pos(t1, k) {
         let (_, old) = t1.remove(i);
         t2.insert(0, (k, v));
         st.hit(Ev::Update);
         st.hit(Ev::Promotion);
-        return (PR::Update(old), None);
+        return (PR::Update(old), None, None);
     }
     if let Some(i) = pos(t2, k) {
         let (_, old) = t2.remove(i);
         t2.insert(0, (k, v));
         st.hit(Ev::Update);
-        return (PR::Update(old), None);
+        return (PR::Update(old), None, None);
     }
     let (b1l, b2l) = (b1.len(), b2.len());
     let full = t1.len() + t2.len() >= size;
@@ -990,7 +1004,7 @@ fn arc_put(size: usize, p: &mut usize, t1: &mut L, t2: &mut L, b1: &mut L, b2: &
         let g = if full { arc_replace(size, *p, t1, t2, b1, b2, false, st) } else { None };
         t2.insert(0, (k, v));
         st.hit(Ev::Update);
-        return (PR::Update(old), g);
+        return (PR::Update(old), g, None);
     }
     if let Some(i) = pos(b2, k) {
         st.hit(Ev::GhostHit);
@@ -1011,9 +1025,10 @@ fn arc_put(size: usize, p: &mut usize, t1: &mut L, t2: &mut L, b1: &mut L, b2: &
         let g = if full { arc_replace(size, *p, t1, t2, b1, b2, true, st) } else { None };
         t2.insert(0, (k, v));
         st.hit(Ev::Update);
-        return (PR::Update(old), g);
+        return (PR::Update(old), g, None);
     }
     let g = if full { arc_replace(size, *p, t1, t2, b1, b2, false, st) } else { None };
+    let untrimmed = (b1.clone(), b2.clone());
     if b1l > size - *p {
         b1.pop();
     }
@@ -1021,7 +1036,7 @@ fn arc_put(size: usize, p: &mut usize, t1: &mut L, t2: &mut L, b1: &mut L, b2: &
         b2.pop();
     }
     t1.insert(0, (k, v));
-    (PR::Put, g)
+    (PR::Put, g, Some(untrimmed))
 }
 
 #[allow(clippy::too_many_arguments)]
